@@ -221,51 +221,68 @@ func tags(res *vkit.Result) {
 			_ = i
 		}
 	}
-	for _, enabled := range []bool{false, true} {
-		for depth := 1; depth <= 3; depth++ {
-			for _, noTagOnly := range []bool{true, false} {
-				if !enabled && (depth != 2 || !noTagOnly) {
-					continue
-				}
-				path := vkit.WriteMem([]byte(b.String()))
-				// ids identify the line: one instance, ids 1…n in file order
-				gun := map[string]any{"type": "http", "target": tgt.Addr,
-					"auto-tag": map[string]any{"enabled": enabled, "uri-elements": depth, "no-tag-only": noTagOnly}}
-				c := map[string]any{"auto_tag": enabled, "uri_elements": depth, "no_tag_only": noTagOnly}
-				key := fmt.Sprintf("C10/tags/auto=%v", enabled)
-				samples, rr, err := runPool(pool(map[string]any{"type": "uri", "file": path, "passes": 1}, gun, 1), 60*time.Second)
-				vkit.RemoveMem(path)
-				if err != nil || rr.Err != nil || rr.Hang {
-					res.Violate(key+"/run", fmt.Sprintf("pool failed: %v %v", err, rr.Err), c)
-					continue
-				}
-				if len(samples) != len(lines) {
-					res.Violate(key+"/sample-count", fmt.Sprintf("%d requests, %d samples", len(lines), len(samples)), c)
-					continue
-				}
-				for _, s := range samples {
-					l := lines[int(s.ID)-1]
-					purePath := strings.SplitN(l.path, "?", 2)[0]
-					auto := modelAutoTag(depth, purePath)
-					var ok bool
-					switch {
-					case !enabled && l.tag == "":
-						ok = s.Tags == "__EMPTY__"
-					case !enabled:
-						ok = s.Tags == l.tag
-					case l.tag == "":
-						ok = s.Tags == auto
-					case noTagOnly:
-						ok = s.Tags == l.tag
-					default: // tag present and auto-tag forced: either is accepted
-						ok = s.Tags == l.tag || s.Tags == auto || s.Tags == l.tag+"|"+auto
+	// "no-tag-only" is given as true, given as false, or left out (documented default: true), for
+	// both gun types that take the auto-tag section.
+	for _, gunType := range []string{"http", "connect"} {
+		for _, enabled := range []bool{false, true} {
+			for depth := 1; depth <= 3; depth++ {
+				for _, nto := range []string{"true", "false", "omitted"} {
+					noTagOnly := nto != "false"
+					if !enabled && (depth != 2 || nto == "false") {
+						continue
 					}
-					if !ok {
-						res.Violate(key+"/tag", fmt.Sprintf("ammo %q with tag %q reported with tag %q (auto-tag %v depth %d no-tag-only %v; auto tag would be %q)", l.path, l.tag, s.Tags, enabled, depth, noTagOnly, auto), c)
+					if gunType == "connect" && depth == 3 {
+						continue
 					}
-					res.Count("tag_samples", 1)
+					path := vkit.WriteMem([]byte(b.String()))
+					// ids identify the line: one instance, ids 1…n in file order
+					at := map[string]any{"enabled": enabled, "uri-elements": depth, "no-tag-only": noTagOnly}
+					if nto == "omitted" {
+						delete(at, "no-tag-only")
+						if depth == 2 {
+							delete(at, "uri-elements") // documented default: 2
+						}
+					}
+					gun := map[string]any{"type": gunType, "target": tgt.Addr, "auto-tag": at}
+					c := map[string]any{"gun": gunType, "auto_tag": enabled, "uri_elements": depth, "no_tag_only": nto}
+					key := fmt.Sprintf("C10/tags/auto=%v", enabled)
+					if gunType != "http" {
+						key = fmt.Sprintf("C10/tags/%s/auto=%v", gunType, enabled)
+					}
+					samples, rr, err := runPool(pool(map[string]any{"type": "uri", "file": path, "passes": 1}, gun, 1), 60*time.Second)
+					vkit.RemoveMem(path)
+					if err != nil || rr.Err != nil || rr.Hang {
+						res.Violate(key+"/run", fmt.Sprintf("pool failed: %v %v", err, rr.Err), c)
+						continue
+					}
+					if len(samples) != len(lines) {
+						res.Violate(key+"/sample-count", fmt.Sprintf("%d requests, %d samples", len(lines), len(samples)), c)
+						continue
+					}
+					for _, s := range samples {
+						l := lines[int(s.ID)-1]
+						purePath := strings.SplitN(l.path, "?", 2)[0]
+						auto := modelAutoTag(depth, purePath)
+						var ok bool
+						switch {
+						case !enabled && l.tag == "":
+							ok = s.Tags == "__EMPTY__"
+						case !enabled:
+							ok = s.Tags == l.tag
+						case l.tag == "":
+							ok = s.Tags == auto
+						case noTagOnly:
+							ok = s.Tags == l.tag
+						default: // tag present and auto-tag forced: either is accepted
+							ok = s.Tags == l.tag || s.Tags == auto || s.Tags == l.tag+"|"+auto
+						}
+						if !ok {
+							res.Violate(key+"/tag", fmt.Sprintf("ammo %q with tag %q reported with tag %q (auto-tag %v depth %d no-tag-only %v; auto tag would be %q)", l.path, l.tag, s.Tags, enabled, depth, noTagOnly, auto), c)
+						}
+						res.Count("tag_samples", 1)
+					}
+					res.Eval(fmt.Sprint(key, depth, nto), true)
 				}
-				res.Eval(fmt.Sprint(key, depth, noTagOnly), true)
 			}
 		}
 	}
